@@ -21,10 +21,12 @@ def main(argv=None) -> int:
     prop = a.prop.upper()
     seed = a.seed if a.seed is not None else int(os.environ.get("VERIF_SEED", "0") or 0)
     mod = importlib.import_module(f"harness.props.{prop.lower()}")
+    rp = json.loads(open(a.replay).read()) if a.replay else None  # read before make_ctx wipes old replays
+    if a.replay:
+        os.environ["VERIF_KEEP_REPLAYS"] = "1"
     ctx = core.make_ctx(prop, a.tier, seed)
     ctx.log(f"repo={ctx.repo} tier={ctx.tier} seed={ctx.seed}")
     if a.replay:
-        rp = json.loads(open(a.replay).read())
         return mod.replay(ctx, rp)
     try:
         mod.run(ctx)
